@@ -654,14 +654,15 @@ func c08History(d c08Desc, seed int64, dir string, res *c08Result) ([]c08Op, []c
 		}
 	}
 	for _, o := range ops {
+		cannotFinalize := d.Cfg.IndexPad >= 1<<62 // an index padding no file can hold: Finalize fails, and must RETURN
 		if o.Kind == "finalize" {
-			if o.Out != "ok" {
+			if o.Out != "ok" && !(cannotFinalize && strings.HasPrefix(o.Out, "err:")) {
 				addV("Finalize/error", "Finalize racing with other operations failed: "+o.Out, nil)
 			}
 			continue
 		}
 		if o.Kind == "finalize-ro" {
-			if o.Out != "ok" {
+			if o.Out != "ok" && !(cannotFinalize && strings.HasPrefix(o.Out, "err:")) {
 				addV("FinalizeReadOnly/error", "FinalizeReadOnly racing with Close and other operations failed: "+o.Out, nil)
 			}
 			continue
@@ -786,7 +787,7 @@ func c08History(d c08Desc, seed int64, dir string, res *c08Result) ([]c08Op, []c
 		res.FinalSnapshots++
 	}
 	// ---- final file
-	if fin != nil && fin.Out == "ok" {
+	if fin != nil && fin.Out == "ok" && d.Cfg.IndexPad < 1<<62 { // (a Finalize that cannot succeed leaves no archive to judge)
 		acked := map[int]bool{}
 		maybe := map[int]bool{}
 		for _, o := range ops {
@@ -997,7 +998,7 @@ func runC08(t *mon.T, raw json.RawMessage) {
 func genC08(g *mon.G) {
 	r := gen.Rand(g.Seed)
 	cfgs := map[string][]lab.Cfg{
-		"blockstore": {{}, {WholeCID: true}, {V1: true}, {DataPad: 5, Sorted: true}, {MaxCid: 100}},
+		"blockstore": {{}, {WholeCID: true}, {V1: true}, {DataPad: 5, Sorted: true}, {MaxCid: 100}, {IndexPad: 1 << 63}},
 		"storage":    {{}, {V1: true}, {WholeCID: true, IndexPad: 3}},
 		"deferred":   {{V1: true}},
 	}
